@@ -1,7 +1,7 @@
 """C20 — double-word-CAS structures (LIFO, dist FIFO, flushable stack, multi-signal) are ABA-safe (structural part)."""
 from core import strip, strip_parens, is_field, order_ge, key_str, key_mentions
 from facts import AnalysisBroken
-from rules import (nodeset, callpred, atom_from, reach, ev, Unevaluable, is_compiler_fence, ret_const)
+from rules import (through_local, nodeset, callpred, atom_from, reach, ev, Unevaluable, is_compiler_fence, ret_const)
 from symword import Machine
 from props import c01
 
@@ -239,7 +239,7 @@ def check_lifo_dist(ctx, P):
         if len(c) != 1:
             bad = "shape"
         else:
-            isc = lambda leaf, pol: strip(leaf) is c[0] and pol is True
+            isc = lambda leaf, pol: through_local(f, leaf) is c[0] and pol is True
             for r in f.returns():
                 rc = ret_const(f, r)
                 if rc is None and f.guarded(r, isc) is not None:
